@@ -47,6 +47,21 @@ class C16(Prop):
             ch = best if i % 3 else sorted(set([best] + rng.sample(range(1, m + 1), rng.randint(0, m - 1))))
             if isinstance(ch, list) and min(swx[j - 1] for j in ch) < swx[best - 1] and i % 2: ch = [best]
             yield dict(entry="distortion", family="helper_many_agents", rule="DIST", V=V, choice=ch)
+        # many agents share one favourite and each has ONE other item worth exactly as much as the favourite (the rest is worth nothing): an allocation that serves
+        # the second items is n times better than one that does not; 8 - 11 agents, small integer utilities, lambda 1 .. 3
+        for i in range(24 if tier == "quick" else 300):
+            n = [8, 9, 10, 11][i % 4]; k = 1 + i % 3; top = float(rng.choice([1, 1, 2, 5]))
+            P = []; V = []
+            seconds = rng.sample(range(1, n), n - 1) + [rng.randrange(1, n)]
+            for a in range(n):
+                rest = [j for j in range(1, n) if j != seconds[a]]; rng.shuffle(rest)
+                order = [0, seconds[a]] + rest
+                rk = [0] * n; vv = [0.0] * n
+                for pos, j in enumerate(order): rk[j] = pos + 1
+                vv[0] = top; vv[seconds[a]] = top
+                if i % 5 == 4: vv[rest[0]] = top      # a third item at the same level
+                P.append(rk); V.append(vv)
+            yield dict(entry="LambdaTSF.scf", family="tsf_tied_with_favourite", rule="TSF", P=P, V=V, k=k, tb="accept", zi=True, want_out=True, seed=2 * i, eclass="lambda", ezi=True)
         N = 300 if tier == "quick" else 6000
         for i in range(N):
             rule = ["KARV", "TSF", "DIST"][i % 3]
@@ -176,7 +191,12 @@ class C16(Prop):
         out = obs["out"]
         if sorted(out) != list(range(n)): return ("not_an_assignment", "lambda-TSF returned %r" % (out,))
         got = sum(V[i][out[i]] for i in range(n))
-        best = max(sum(V[i][p[i]] for i in range(n)) for p in itertools.permutations(range(n)))
+        if n <= 7:
+            best = max(sum(V[i][p[i]] for i in range(n)) for p in itertools.permutations(range(n)))
+        else:      # larger markets: the optimum from an independent exact assignment solver (utilities of these families are small integers: no rounding)
+            from scipy.optimize import linear_sum_assignment
+            Wn = np.array([[float(x) for x in row] for row in V]); ri, ci = linear_sum_assignment(Wn, maximize=True)
+            best = sum(V[i][j] for i, j in zip(ri.tolist(), ci.tolist()))
         bound = 2 * Fraction(n ** (1 / (k + 1))) * (1 + Fraction(1, 10**9))
         if (got + n * Fraction(E.EPS)) * bound < best:
             return ("distortion_exceeded", "lambda-TSF welfare %s (+n*eps), optimum %s, bound factor %s" % (float(got), float(best), float(bound)))
